@@ -735,8 +735,47 @@ func buildC03(tier string) *core.Plan {
 	sp := core.Space{Name: fmt.Sprintf("layouts-%d-deviations", depth), N: int64(len(layouts)),
 		Desc: func(i int64) any { return layouts[i] },
 		Run:  func(c *core.Ctx, i int64) { c03Run(c, layouts[i]) }}
+	// $parent written with the escape sequences of the file formats (no literal "$parent" bytes in the file)
+	esc := []struct{ ext, text string }{
+		{"json", "{\"\\u0024parent\": \"a\", \"y\": 2}\n"},
+		{"json", "{\"\\u0024parent\": [\"a\"], \"y\": 2}\n"},
+		{"yaml", "\"\\x24parent\": a\ny: 2\n"},
+		{"yaml", "? \"\\u0024parent\"\n: a\ny: 2\n"},
+		{"toml", "\"\\u0024parent\" = \"a\"\ny = 2\n"},
+		{"json", "{\"\\u0024parent\": false, \"y\": 2}\n"},
+	}
+	escSpace := core.Space{Name: "escaped-$parent-spellings", N: int64(len(esc)), Chunk: 1,
+		Desc: func(i int64) any { return esc[i] },
+		Run: func(c *core.Ctx, i int64) {
+			e := esc[i]
+			dir := scratchDir()
+			defer os.RemoveAll(dir)
+			os.WriteFile(filepath.Join(dir, "a.yaml"), []byte("x: 1\n"), 0o644)
+			// q.z.<ext>: by file name it would inherit from q (which does not exist); the directive says a (or nothing)
+			os.WriteFile(filepath.Join(dir, "q.z."+e.ext), []byte(e.text), 0o644)
+			c.Eval()
+			c.Trans(1)
+			so, se, code, err := runTool(dir, "bkl", "-f", "json", "q.z."+e.ext)
+			wit := "escaped $parent in ." + e.ext + ": " + strings.TrimSpace(e.text)
+			if err != nil {
+				return
+			}
+			c.Validated()
+			c.Nontrivial()
+			want := `[{"x":1,"y":2}]`
+			if strings.Contains(e.text, "false") {
+				want = `[{"y":2}]`
+			}
+			got, perr := parseJSONStream(so)
+			if code != 0 || perr != nil || core.CanonLoose(got) != want {
+				c.Outcome("ESCAPED-PARENT-NOT-HONOURED")
+				c.Fail("refResolve", "wrong-output", wit, map[string]any{"exit": code, "stdout": so, "stderr": se, "want": want})
+				return
+			}
+			c.Outcome("equal")
+		}}
 	return &core.Plan{
-		Spaces: []core.Space{sp},
+		Spaces: []core.Space{sp, escSpace},
 		Rule: "7 baseline directory layouts (filename chains of depth 1-4 with sibling layers; an entry whose $parent is a wildcard over three part layers, alone and in a list) and every layout within <= depth deviations: one file's extension changed (6 formats), one layer removed, 16 $parent values in document 0 or 1 of any file, false+string, " +
 			"a filename link re-expressed by $parent on a renamed file, relative/absolute/chained/dotted symlinks as entry, a same-name symlink in a sibling directory (next to a decoy parent layer) as entry, -P, virtual or unsupported extension on the command line, a second input before or after; each run through the real bkl CLI",
 		Assumptions: []string{"refResolve + refStream + refMerge give the ordered layer list and the expected documents (each layer appends its name to `order`, so application order is visible); $parent values of other types (numbers, maps) are not judged",
